@@ -923,17 +923,17 @@ class Frame(object):
 
         # Calculate the bounding box, to optimize signal insertion calculation
         px_width_offset = 2 * width / self.df
-        if drift_rate < 0:
-            px_width_offset = -px_width_offset
         px_drift_offset = self.dt * (self.tchans - 1) * drift_rate / self.df
         if doppler_smearing:
             px_drift_offset += drift_rate * self.dt / self.df
 
-        bounding_start_index = start_index + int(-px_width_offset)
-        bounding_stop_index = start_index + int(px_drift_offset + px_width_offset)
+        # Round outwards; the upper index is exclusive, so go one past the last pixel
+        bounding_start_index = start_index + int(np.floor(min(px_drift_offset, 0) - px_width_offset))
+        bounding_stop_index = start_index + int(np.ceil(max(px_drift_offset, 0) + px_width_offset)) + 1
 
-        bounding_min_index = max(min(bounding_start_index, bounding_stop_index), 0)
-        bounding_max_index = min(max(bounding_start_index, bounding_stop_index), self.fchans)
+        # Clip both ends to the frame (the box may lie wholly outside the band)
+        bounding_min_index = min(max(bounding_start_index, 0), self.fchans)
+        bounding_max_index = min(max(bounding_stop_index, 0), self.fchans)
 
         # Select common frequency profile types
         if f_profile_type == 'gaussian':
